@@ -79,3 +79,39 @@ def lemma_detection_perfect(a: ObjT, w: Real, beta: Real):
         mm_diagonal(length(ra), length(ra), hit(ra, ra, w))
         P, R, F = detection(a, a, w, beta, trim)
         ensures(P == 1, R == 1, F == 1, label='perfect')
+
+
+# ----------------------------------------------------------------------------- boundary deviation
+def nearest(a, b):
+    """for every boundary of a the distance to the closest boundary of b"""
+    return row_min(length(a), length(b), lambda i, j: absr(a[i] - b[j]))
+
+
+@contract("mir_eval.segment.deviation", props="C01 C02 C04 C06 C14")
+def deviation(reference_intervals: ObjT, estimated_intervals: ObjT, trim: Bool = False) -> Tup(Real, Real):
+    raises(ValueError, when=not (valid_iv(reference_intervals) and valid_iv(estimated_intervals)), props="C14")
+    rb = bounds_of(reference_intervals, trim)
+    eb = bounds_of(estimated_intervals, trim)
+    n = length(rb)
+    m = length(eb)
+    ensures(implies(n == 0 or m == 0, isnan(result[0]) and isnan(result[1])), label='no-boundaries', props="C01 C04")
+    if n > 0 and m > 0:
+        ensures(result[0] == median_of(nearest(rb, eb)), result[1] == median_of(nearest(eb, rb)), label='def', props="C04 C06")
+        ensures(result[0] >= 0, result[1] >= 0, label='nonneg', props="C01")
+
+
+@lemma("C06")
+def lemma_deviation_swap(a: ObjT, b: ObjT, trim: Bool):
+    """exchanging the annotations exchanges reference-to-estimate and estimate-to-reference deviation"""
+    requires(valid_iv(a), valid_iv(b), n_bounds(a) >= 3, n_bounds(b) >= 3)
+    x = deviation(a, b, trim)
+    y = deviation(b, a, trim)
+    ensures(x[0] == y[1], x[1] == y[0], label='swap')
+
+
+@lemma("C02")
+def lemma_deviation_perfect(a: ObjT, trim: Bool):
+    """an annotation against itself has zero deviation in both directions"""
+    requires(valid_iv(a), n_bounds(a) >= 3)
+    x = deviation(a, a, trim)
+    ensures(x[0] == 0, x[1] == 0, label='perfect')
